@@ -25,7 +25,8 @@ ASSUME = [
 # the model of the current code (pending_dials is a queue per peer since /repo e9eba69) must satisfy the untagged
 # quiescence obligation: nothing is excused by a known-defect tag
 MC_LINES = ["SPECIFICATION Spec", "INVARIANTS MonOK QuiesceStrict BooksOK BoundOK", "VIEW View", "CHECK_DEADLOCK FALSE"]
-BASEC = dict(MaxConc=1, MaxConn=2, MaxCancel=1, DialOpts="<- BothOpts", Fixed="<- FixedD9", Wedge=False, KeepHist=False)
+BASEC = dict(MaxConc=1, MaxConn=2, MaxCancel=1, DialOpts="<- BothOpts", Fixed="<- FixedD9", Wedge=False, ImmErr=True, Foreign=True,
+             Bugs="<- NoBugs", KeepHist=False)
 MV = ["CONSTANTS", "  p2 = p2", "  p3 = p3"]
 
 
@@ -76,10 +77,11 @@ def mc_runs(ctx):
 
 def generate(ctx):
     gl = ["SPECIFICATION Spec", "VIEW View", "ACTION_CONSTRAINT Emit", "CHECK_DEADLOCK FALSE"] + MV
-    sets = [("g1", dict(BASEC, Peers="<- OnePeer", MaxReq=2, MaxConn=1, KeepHist=True))]
+    gb = dict(BASEC, ImmErr=False, Foreign=False)   # scripts cannot force an immediate dial error; shapes cover it
+    sets = [("g1", dict(gb, Peers="<- OnePeer", MaxReq=2, MaxConn=1, KeepHist=True))]
     if not ctx.quick():
-        sets.append(("g2", dict(BASEC, Peers="<- TwoPeers", MaxReq=2, MaxConn=1, MaxCancel=0, DialOpts="<- DialOnly", KeepHist=True)))
-        sets.append(("g3", dict(BASEC, Peers="<- OnePeer", MaxReq=3, MaxConn=1, MaxCancel=0, DialOpts="<- DialOnly", KeepHist=True)))
+        sets.append(("g2", dict(gb, Peers="<- TwoPeers", MaxReq=2, MaxConn=1, MaxCancel=0, DialOpts="<- DialOnly", KeepHist=True)))
+        sets.append(("g3", dict(gb, Peers="<- OnePeer", MaxReq=3, MaxConn=1, MaxCancel=0, DialOpts="<- DialOnly", KeepHist=True)))
     behs, stats = [], []
     for name, consts in sets:
         b, g = tlc_generate(ctx, "ReqRespMC.tla", write_cfg(ctx, "gen_%s.cfg" % name, consts, gl), timeout=1200)
@@ -223,6 +225,14 @@ def selftest(ctx):
                workers=4, timeout=600, expect_violation=True)
     found = (not r["ok"]) and "QuiesceStrict is violated" in r["out"]
     log("selftest model: pending_dials as a one-slot map (code before e9eba69) vs QuiesceStrict -> %s" % ("violated (expected)" if found else "NOT violated"))
+    ok &= found
+    # the request context stored before the fallible dial() and kept when it fails at once (seeded change C13c)
+    r = tlc_mc(ctx, "ReqRespMC.tla", write_cfg(ctx, "negk.cfg", dict(BASEC, Peers="<- OnePeer", MaxReq=2, Bugs="<- KeepCtx"),
+                                               ["SPECIFICATION Spec", "INVARIANTS MonOK", "VIEW View", "CHECK_DEADLOCK FALSE"] + MV),
+               workers=4, timeout=600, expect_violation=True)
+    found = (not r["ok"]) and "Invariant MonOK is violated" in r["out"] and "second terminal event" in r["out"]
+    log("selftest model: request context kept in pending_dials after an immediate dial error -> %s" %
+        ("MonOK violated: second terminal event (expected)" if found else "NOT violated"))
     ok &= found
     # responder side: the bound applied per remote peer instead of globally must break the monitor's bound rule
     r = tlc_mc(ctx, "ReqRespBoundMC.tla", write_cfg(ctx, "negb.cfg", dict(Requesters={1, 2}, K=2, Bound=1, PerPeer=True), B_LINES),
